@@ -51,8 +51,12 @@ def _siblings_case(draw):
             w["flat_inputs"] = [q] + list(w["flat_inputs"])
         else:
             q = draw(st.sampled_from(own))
-        w["graph"]["nodes"] = [{**x, "params": ["kshared" if z == q else z for z in x["params"]]} for x in w["graph"]["nodes"]]
-        w["graph"]["bind"] = {"kshared": ["ib", i]}
+        # inside, the wrapper calls the input `kshared` too - or by a private name that the wrapper renames to `kshared`
+        iname = f"kin{i}" if prob(draw, 0.5) else "kshared"
+        w["graph"]["nodes"] = [{**x, "params": [iname if z == q else z for z in x["params"]]} for x in w["graph"]["nodes"]]
+        w["graph"]["bind"] = {iname: ["ib", i]}
+        if iname != "kshared":
+            w["renames"] = list(w.get("renames", [])) + [{"kind": "inputs", "map": {iname: "kshared"}}]
         w["flat_inputs"] = ["kshared" if z == q else z for z in w["flat_inputs"]]
         flat_bind[q] = ["ib", i]
     return {"part": "siblings", "flat": topo, "nested": draw(gen.permuted(outer)), "flat_bind": flat_bind, "supply_shared": prob(draw, 0.25),
@@ -126,6 +130,8 @@ def _all_func_nodes(nodes):
 def _check_siblings(case, ev):
     flat, fb = case["flat"], case["flat_bind"]
     labels = {"part:siblings", f"wrappers_binding_kshared:{len(fb)}"}
+    if any(w.get("renames") for w in case["nested"] if w["k"] == "graph"):
+        labels.add("bound_input_renamed_to_the_shared_name")
     required, _opt, _ = ref.input_spec(flat, T(fb), None)
     values = {q: ("in", q, 0) for q in required}
     fbind = T(fb)
